@@ -128,22 +128,26 @@ def lemma_block_job(ctx):
     st.ghost["src_len"] = src_len
     in_file = z3.If(src_len.t > off.t, z3.If(src_len.t - off.t < nbytes.t, src_len.t - off.t, nbytes.t), 0)
     n_bound = 0
-    names = [n for n in ("harc", "bytes", "off", "stat_tx")]
-    # field order as declared by the closure's debug info
-    order = {}
-    for nm in names:
-        m = re.match(r"^\(_1\.(\d+):", fn.debug.get(nm, ""))
-        if not m:
-            raise EngineAbort("closure capture %s not found" % nm)
-        order[nm] = int(m.group(1))
-    vals = {"harc": mk_arc(handle, "Arc<operations::CopyHandle>", "harc", rc=2), "bytes": nbytes, "off": off,
+    # captures in the order the closure declares them (debug info); unknown extra captures become fresh symbolic values
+    caps = {}
+    for nm, where in fn.debug.items():
+        m = re.match(r"^\(_1\.(\d+): (.*)\)$", where)
+        if m:
+            caps[int(m.group(1))] = (nm, m.group(2))
+    for need in ("harc", "bytes", "off", "stat_tx"):
+        if need not in [v[0] for v in caps.values()]:
+            raise EngineAbort("closure capture %s not found" % need)
+    vals = {"harc": mk_arc(handle, "Arc<operations::CopyHandle>", "harc", rc=ctx.spec.get("rc", 2)), "bytes": nbytes, "off": off,
             "stat_tx": mk_arc(OpaqueV("dyn StatusUpdater", "updater"), "Arc<dyn StatusUpdater>", "stat", rc=2)}
-    fields = [None] * 4
-    for nm, i in order.items():
-        fields[i] = vals[nm]
-    clo = AggV("closure", None, fields, vname=("closure", tuple(sorted(order, key=order.get))))
+    fields, order = [], []
+    for i in range(max(caps) + 1):
+        nm, ty = caps.get(i, ("?%d" % i, "()"))
+        fields.append(vals[nm] if nm in vals else eng.fresh(st, ty, "cap_" + nm))
+        order.append(nm)
+    clo = AggV("closure", None, fields, vname=("closure", tuple(order)))
     finalised = []
     eng.add_drop_hook(r"Arc<", _arc_drop(finalised))
+    eng.add_summary(r"^Result::<\(\), libfs::Error>::is_err$", lambda e, st, c, a, d: Outcome(BoolV(is_err(deref_ref(e, st, a[0])))))
     paths = eng.run(fn.name, [clo], st)
     ctx.paths += len(paths)
     seen_short = False
@@ -190,6 +194,17 @@ def lemma_block_job(ctx):
         for e in copied_sent:
             total = total + e.args[0].fields[0].t
         ctx.lemma(eng, "C12: the Copied updates of a block job add up to the bytes the kernel reported", p.pc, total == done)
+        # C06/C10/C18: metadata/fsync are applied only by whoever drops the LAST reference, i.e. after every job's last write
+        meta_ev = [i for i, e in enumerate(p.trace) if e.name in ("copy_permissions", "copy_timestamps", "copy_owner", "sync", "finalise")]
+        zero = [i for i, e in enumerate(p.trace) if e.name == "arc_drop" and e.args[0].startswith("harc") and e.args[1] == 0]
+        if meta_ev and (not zero or meta_ev[0] < zero[0]):
+            ctx.fail("C06/C10/C18: a block job applies no metadata/fsync while other jobs may still write (only the last reference finalises)",
+                     "finalisation event %s while the handle is still shared; trace %s" % (p.trace[meta_ev[0]].name, names_t))
+        else:
+            ctx.passed("C06/C10/C18: a block job applies no metadata/fsync while other jobs may still write (only the last reference finalises)")
+        hd = [e for e in p.trace if e.name == "arc_drop" and e.args[0].startswith("harc")]
+        if len(hd) != 1 or (copies and p.trace.index(hd[0]) < max(p.trace.index(e) for e in copies)):
+            ctx.fail("C20/C10: a block job releases its handle reference exactly once, after its last copy", str(names_t))
         # C10/C18/C20: the job drops its handle clone exactly once, after the last copy
         ctx.witness(eng, "kernel returns a short count for a block", p.pc, [copies[0].ret.t < nbytes.t]) if not is_errev(copies[0]) else None
     ctx.bounds = ("one arbitrary block (any offset, any size >= 1, any file length), copy_file_offset contract: any count 1..=min(request, bytes before EOF), "
@@ -252,7 +267,9 @@ def lemma_queue_file_blocks(ctx):
     def s_qfr(eng, st, callee, args, dty):
         rng = args[1]
         h = deref_ref(eng, st, args[0])
-        # each queued block holds one clone; model the (symbolic) number of blocks by one clone when the range is non-empty
+        # the block jobs queued for this range keep the file open: account one reference for them
+        if "rc" in h.attrs:
+            h.attrs["rc"].v += 1
         return Outcome(ok(IntV(rng.fields[1].t - rng.fields[0].t, "u64")),
                        events=[Event("queue_file_range", [rng.fields[0], rng.fields[1], h.name], None)])
     eng.add_summary(r"^queue_file_range$", s_qfr)
@@ -288,7 +305,9 @@ def lemma_queue_file_blocks(ctx):
     dst = RefV(Cell(OpaqueV("Path", "dst_path")))
     pool = RefV(Cell(OpaqueV("ThreadPool", "pool")))
     upd = RefV(Cell(mk_arc(OpaqueV("dyn StatusUpdater", "updater"), "Arc<dyn StatusUpdater>", "stat", rc=1)))
-    paths = eng.run(fn.name, [src, dst, pool, upd, RefV(Cell(cfg_arc))], st)
+    args = build_args(eng, st, fn, [(r"^&(std::path::)?Path$", src), (r"^&(std::path::)?Path$", dst), (r"ThreadPool", pool),
+                                    (r"StatusUpdater", upd), (r"Arc<(config::)?Config>", RefV(Cell(cfg_arc)))])
+    paths = eng.run(fn.name, args, st)
     ctx.paths += len(paths)
     mode = cv["reflink"]
     kinds = set()
@@ -352,7 +371,11 @@ def lemma_queue_file_blocks(ctx):
             ctx.lemma(eng, "C01: the whole-file range is 0..len", p.pc, z3.And(q[0].args[0].t == 0, q[0].args[1].t == length.t))
         # C20: when queue_file_blocks returns, the dispatcher's own reference is gone
         drops = [e for e in p.trace if e.name == "arc_drop"]
-        (ctx.passed if len(drops) == 1 else ctx.fail)("C20: the dispatcher drops its handle reference before returning (jobs keep the file open, not the dispatcher)", str(names))
+        # after the call the only owners left are the queued block jobs (one accounted reference per queued range)
+        left = drops[-1].args[1] if drops else None
+        (ctx.passed if drops and left == len(q) else ctx.fail)(
+            "C20: when queue_file_blocks returns, only queued block jobs still hold the file open (the dispatcher keeps no reference)",
+            "references left: %r, queued ranges: %d; %s" % (left, len(q), names))
     for k in ["whole", "cloned", "sparse-empty"] + ["extents%d" % i for i in range(1, nmax + 1)]:
         (ctx.passed if k in kinds else ctx.fail)("witness: path kind " + k, str(sorted(kinds)))
     ctx.bounds = "extent lists of 0..%d extents; all reflink modes x clone outcomes; whole-file / extent / unsupported branches; one fault" % nmax
